@@ -463,6 +463,80 @@ func (c *ctx) genBytes() []byte {
 	return b
 }
 
+// genJAPayload: what a device finds after decrypting a join-accept: JoinNonce(3) NetID(3) DevAddr(4) DLSettings(1)
+// RxDelay(1) [CFList(16)].  The reserved parts (upper nibble of RxDelay, bytes 13..15 of a mask CFList, the unused
+// CFList types) are filled as a sender of a later specification revision might fill them.
+func (c *ctx) genJAPayload() []byte {
+	n := 12
+	if c.rnd.Intn(3) != 0 {
+		n = 28
+	}
+	b := c.bytesN(n)
+	if c.rnd.Intn(2) == 0 {
+		b[11] &= 0x0f
+	}
+	if n == 28 {
+		switch c.rnd.Intn(6) {
+		case 0, 1:
+			b[27] = 0
+		case 2, 3:
+			b[27] = 1
+			if c.rnd.Intn(2) == 0 { // only the reserved bytes differ from what the library's own encoder writes
+				b[24], b[25], b[26] = 0, 0, 0
+				b[24+c.rnd.Intn(3)] = byte(1 + c.rnd.Intn(255))
+			}
+			if c.rnd.Intn(3) == 0 { // trailing all-zero masks
+				for k := 12 + 2*c.rnd.Intn(6); k < 24; k++ {
+					b[k] = 0
+				}
+			}
+		case 4:
+			b[27] = byte(2 + c.rnd.Intn(3))
+		}
+	}
+	switch c.rnd.Intn(12) {
+	case 0:
+		b = b[:c.rnd.Intn(len(b))]
+	case 1:
+		b = append(b, c.bytesN(1+c.rnd.Intn(4))...)
+	}
+	return b
+}
+
+func jaPayloadEvent(c *ctx, b []byte) M {
+	ev := M{"ev": "japl", "bytes": bs(b)}
+	in := append([]byte{}, b...)
+	var p lorawan.JoinAcceptPayload
+	res, _ := observe(func() error { return p.UnmarshalBinary(false, in) })
+	ev["derr"] = res
+	ev["intact"] = string(in) == string(b)
+	if res != "" {
+		return ev
+	}
+	val := M{}
+	jaToVal(val, &p)
+	ev["val"] = val
+	var re []byte
+	rres, _ := observe(func() error {
+		var err error
+		re, err = p.MarshalBinary()
+		return err
+	})
+	ev["rerr"] = rres
+	if rres == "" {
+		ev["re"] = bs(re)
+		var q lorawan.JoinAcceptPayload
+		ares, _ := observe(func() error { return q.UnmarshalBinary(false, re) })
+		ev["aerr"] = ares
+		if ares == "" {
+			again := M{}
+			jaToVal(again, &q)
+			ev["again"] = again
+		}
+	}
+	return ev
+}
+
 func drvFrame(c *ctx) error {
 	switch c.mode {
 	case "roundtrip":
@@ -494,6 +568,10 @@ func drvFrame(c *ctx) error {
 	case "bytecases":
 		for _, cs := range c.cases {
 			c.emit(bytesEvent(c, unbs(cs["bytes"])))
+		}
+	case "japayload": // decrypted join-accept payloads as byte strings (12 / 28 bytes), reserved bits and bytes set at will
+		for i := 0; i < c.n; i++ {
+			c.emit(jaPayloadEvent(c, c.genJAPayload()))
 		}
 	default:
 		return fmt.Errorf("frame: unknown mode %q", c.mode)
